@@ -160,7 +160,7 @@ class SymMixin:
                 else:
                     self.refine_none(v, run, True)
                     return False
-            return run.decide(("nonempty", t), self.site(node))
+            return run.decide(nonempty_term(t), self.site(node))
         if k in ("inst", "enum", "datetime", "uuid", "stream"):
             if self.maybe_none(v, run):
                 isn = run.decide(("is", t, ("k", None)), self.site(node))
